@@ -66,6 +66,71 @@ Proof.
   - right. right. unfold sealed_since. rewrite last_id_snoc. lia.
 Qed.
 
+(* ------------------------------------------------------------------ calls covered: appends, consuming reads and peeks *)
+Definition simple_callP (cl : call) : bool :=
+  match cl with CAppend _ _ | CRead _ _ => true | _ => false end.
+
+Definition rthreadP (t : topic) (ck : bool) (rest : list call) (p : pc) (d : list result) : thread :=
+  {| th_todo := CRead t ck :: rest; th_pc := p; th_done := d |}.
+
+Definition th_okP (c : Cfg) (cs : cstate) (th : thread) : Prop :=
+  match th_todo th with
+  | [] => th_pc th = PStart
+  | CAppend t e :: _ =>
+    match th_pc th with
+    | PStart | PA_written => True
+    | PA_flag | PA_seal_post => appendable c t (e_len e) = None
+    | PA_seal_pre w => appendable c t (e_len e) = None /\ ts_writer (rawts cs (t_id t)) = Some w
+    | _ => False
+    end
+  | CRead t ck :: _ =>
+    match th_pc th with
+    | PStart => True
+    | PR_top | PR_t_snap _ _ | PR_t_wsnap _ _ _ | PR_t_init _ _ => hyd (rawts cs (t_id t))
+    | PR_commit _ r _ | PR_idx r => ck = true /\ hyd (rawts cs (t_id t)) /\ exists o, r = REntry o
+    | _ => False
+    end
+  | _ => False
+  end.
+
+Lemma th_okP_frame c cs cs' th :
+  th_okP c cs th ->
+  (forall t, head_topic th = Some t -> hyd (rawts cs t) -> hyd (rawts cs' t)) ->
+  (forall t w, head_topic th = Some t -> th_holds t th = true -> ts_writer (rawts cs t) = Some w -> ts_writer (rawts cs' t) = Some w) ->
+  th_okP c cs' th.
+Proof.
+  unfold th_okP, head_topic, th_holds. intros H Hh Hw.
+  destruct (th_todo th) as [|[t e|t es|t ck|t mb ck] rest]; auto.
+  - destruct (th_pc th); auto. destruct H as (A & B). split; [exact A|].
+    apply (Hw (t_id t) sealed eq_refl); [apply N.eqb_refl|exact B].
+  - destruct (th_pc th); auto; try (apply (Hh (t_id t) eq_refl H));
+      (destruct H as (B0 & B1 & B2); split; [exact B0|]; split; [apply (Hh (t_id t) eq_refl B1)|exact B2]).
+Qed.
+
+Lemma th_okP_start c cs th : th_pc th = PStart -> Forall (fun cl => simple_callP cl = true) (th_todo th) -> th_okP c cs th.
+Proof.
+  intros Hp Hs. unfold th_okP. rewrite Hp. destruct (th_todo th) as [|cl rest]; [reflexivity|].
+  inversion Hs; subst. destruct cl as [t e|t es|t ck|t mb ck]; cbn in H1; try discriminate; auto.
+Qed.
+
+Lemma others_th_okP c cs sh' tid th th' t0 :
+  nth_error (cs_threads cs) tid = Some th -> head_topic th = Some t0 ->
+  (forall t, t <> t0 -> get_ts (sh_st sh') t = get_ts (sh_st (cs_sh cs)) t) ->
+  (hyd (rawts cs t0) -> hyd (get_ts (sh_st sh') t0)) ->
+  (forall j thj w, j <> tid -> nth_error (cs_threads cs) j = Some thj -> th_holds t0 thj = true ->
+     ts_writer (rawts cs t0) = Some w -> ts_writer (get_ts (sh_st sh') t0) = Some w) ->
+  forall j thj, j <> tid -> nth_error (cs_threads cs) j = Some thj -> th_okP c cs thj -> th_okP c (upd cs sh' tid th') thj.
+Proof.
+  intros Hth Hhead Hoth Hhyd Hwr j thj Hne Hj Hok. apply (th_okP_frame c cs _ thj Hok).
+  - intros t _ Hh. rewrite rawts_upd. destruct (N.eq_dec t t0) as [->|Hn]; [auto|]. unfold hyd in *. now rewrite (Hoth t Hn).
+  - intros t w _ Hhold Hw. rewrite rawts_upd. destruct (N.eq_dec t t0) as [->|Hn]; [eapply Hwr; eauto|]. now rewrite (Hoth t Hn).
+Qed.
+
+Lemma th_readP_hyd c cs th t ck rest : th_okP c cs th -> th_todo th = CRead t ck :: rest -> th_pc th <> PStart -> hyd (rawts cs (t_id t)).
+Proof.
+  unfold th_okP. intros H Ht Hp. rewrite Ht in H. destruct (th_pc th); try contradiction; try tauto.
+Qed.
+
 (* ------------------------------------------------------------------ windows, ghost log, invariant *)
 Definition winF (c : Cfg) (cs : cstate) (th : thread) : Prop :=
   match th_todo th with
@@ -87,7 +152,7 @@ Record INVF (c : Cfg) (progs : list (list call)) (cs : cstate) (L : glog) : Prop
   fv_lock : lock_ok cs;
   fv_len : length (cs_threads cs) = length progs;
   fv_th : forall i th, nth_error (cs_threads cs) i = Some th ->
-            th_ok c cs th /\ Forall (fun cl => simple_call cl = true) (th_todo th) /\ hist_ok (nth i progs []) th;
+            th_okP c cs th /\ Forall (fun cl => simple_callP cl = true) (th_todo th) /\ hist_ok (nth i progs []) th;
   fv_win : forall i th, nth_error (cs_threads cs) i = Some th -> winF c cs th;
   fv_log : forall t, map snd (L t) ++ map out_of (unread c (eff cs t)) = map out_of (stream (eff cs t));
   fv_mine : forall t i th, nth_error (cs_threads cs) i = Some th -> log_of i (L t) = del_seq t (nth i progs []) th;
@@ -148,8 +213,8 @@ Lemma INVF_step c progs cs L sh' tid th th' t0 da dd :
   lock_ok cs' ->
   TInvP c (nid_of cs') (eff cs' t0) ->
   effect_ok c (eff cs t0) (eff cs' t0) da dd ->
-  (th_ok c cs' th' /\ Forall (fun cl => simple_call cl = true) (th_todo th') /\ hist_ok (nth tid progs []) th') ->
-  (forall j thj, j <> tid -> nth_error (cs_threads cs) j = Some thj -> th_ok c cs' thj) ->
+  (th_okP c cs' th' /\ Forall (fun cl => simple_callP cl = true) (th_todo th') /\ hist_ok (nth tid progs []) th') ->
+  (forall j thj, j <> tid -> nth_error (cs_threads cs) j = Some thj -> th_okP c cs' thj) ->
   winF c cs' th' ->
   (forall j thj, j <> tid -> nth_error (cs_threads cs) j = Some thj -> winF c cs' thj) ->
   del_seq t0 (nth tid progs []) th' = del_seq t0 (nth tid progs []) th ++ map out_of dd ->
